@@ -34,6 +34,9 @@ pub struct Output {
     path: Arc<Path>,
     creator: FileCreator,
     config: OutputConfig,
+
+    /// Set once we've started creating (or modifying) the file at `path`.
+    touched_output_path: std::sync::atomic::AtomicBool,
 }
 
 #[derive(Clone, Copy)]
@@ -140,6 +143,32 @@ impl Output {
                 should_write_trace: args.common().write_trace,
                 use_mmap: args.common().mmap_output_file,
             },
+            touched_output_path: std::sync::atomic::AtomicBool::new(false),
+        }
+    }
+
+    /// Called when linking failed. If we already created or started modifying the output file,
+    /// remove it, so that a partial output isn't mistaken for the result of a successful link (GNU
+    /// ld also deletes its output on failure). If we failed before touching the output path, then
+    /// whatever was there before is left alone.
+    pub(crate) fn discard(&self) {
+        if !self
+            .touched_output_path
+            .load(std::sync::atomic::Ordering::Relaxed)
+        {
+            return;
+        }
+        if let FileCreator::Background {
+            sized_output_recv, ..
+        } = &self.creator
+        {
+            // Wait for the background task to finish creating the file (if it hasn't been received
+            // already) and close it.
+            drop(sized_output_recv.recv());
+        }
+        // Only remove regular files. We don't want to delete e.g. /dev/null.
+        if std::fs::symlink_metadata(&self.path).is_ok_and(|meta| meta.file_type().is_file()) {
+            let _ = std::fs::remove_file(&self.path);
         }
     }
 
@@ -152,6 +181,8 @@ impl Output {
                 let sender = sized_output_sender
                     .take()
                     .expect("set_size must only be called once");
+                self.touched_output_path
+                    .store(true, std::sync::atomic::Ordering::Relaxed);
                 let path = self.path.clone();
 
                 let output_config = self.config;
@@ -209,6 +240,8 @@ impl Output {
                 wait_for_sized_output(sized_output_recv)?
             }
             FileCreator::Regular { file_size } => {
+                self.touched_output_path
+                    .store(true, std::sync::atomic::Ordering::Relaxed);
                 delete_old_output(&self.path);
                 let file_size = file_size.context("set_size was never called")?;
                 self.create_file_non_lazily(file_size)?
